@@ -578,7 +578,9 @@ func (r *Reconciler) reconcileAbort(ctx context.Context, transaction *configapi.
 func (r *Reconciler) reconcileApply(ctx context.Context, transaction *configapi.Transaction) (controller.Result, error) {
 	switch transaction.Status.Phases.Apply.State {
 	case configapi.TransactionApplyPhase_APPLYING:
-		allApplied := true
+		// Start applying the changes to every target first: the changes are committed on all of them, and a failure
+		// on one target must not leave the others unapplied (and everything behind them on those targets blocked).
+		proposals := make([]*configapi.Proposal, 0, len(transaction.Status.Proposals))
 		for _, proposalID := range transaction.Status.Proposals {
 			proposal, err := r.proposals.Get(ctx, proposalID)
 			if err != nil {
@@ -601,7 +603,11 @@ func (r *Reconciler) reconcileApply(ctx context.Context, transaction *configapi.
 				}
 				return controller.Result{}, nil
 			}
+			proposals = append(proposals, proposal)
+		}
 
+		allApplied := true
+		for _, proposal := range proposals {
 			switch proposal.Status.Phases.Apply.State {
 			case configapi.ProposalApplyPhase_APPLYING:
 				allApplied = false
